@@ -1364,3 +1364,45 @@ def rule_ec_per_file(ctx, prop):
         else:
             rep.floor("editorconfig::parse call sites in the CLI", n, 2, cfg)
     return rep
+
+
+def rule_stdin_filepath(ctx, prop):
+    """--stdin-filepath seeds the configuration search: whenever it is given (and no configuration is forced), the stdin path
+    resolves its configuration exactly as a file at that path would"""
+    from paths import Enumerator, TooManyPaths
+    rep = Report(prop, "R-CFG(k)", "every path of load_configuration_for_stdin on which opt.stdin_filepath is Some (and no configuration is "
+                                   "forced) returns load_configuration(filepath); the path's existence or kind is never consulted")
+    for cfg, prog in ctx.programs.items():
+        prog = _view(prog)
+        f = prog.fn("stylua", "config::ConfigResolver::<'_>::load_configuration_for_stdin")
+        if not rep.anchor(f is not None, "ConfigResolver::load_configuration_for_stdin", cfg):
+            continue
+        try:
+            res = Enumerator(f, max_paths=40000).run()
+        except TooManyPaths:
+            rep.anchor(False, "load_configuration_for_stdin: too many paths", cfg)
+            continue
+        n = 0
+        bad = {}
+        for st in res:
+            k = [kk for kk in st.disc if kk.endswith(".stdin_filepath")]
+            if not k or st.disc[k[0]] != "Some":
+                continue
+            forced = [vv for kk, vv in st.disc.items() if kk.endswith(".forced_configuration")]
+            if forced and forced[0] == "Some":
+                continue
+            n += 1
+            calls = [c for _, c, _ in st.calls]
+            if not any(c.endswith("::load_configuration") for c in calls):
+                via = tuple(sorted({c.split("::")[-1] for c in calls if FS_RESOLVING.search(c) or
+                                    re.search(r"Path::(is_file|is_dir|exists|try_exists|metadata|symlink_metadata)$|fs::metadata$", c)}))
+                bad.setdefault(via, st)
+        rep.inst(f"{f.key} stdin_filepath = Some always resolves through load_configuration", {"paths": n}, cfg, ok=not bad)
+        for via, st in sorted(bad.items())[:2]:
+            rep.violation(f"{f.key} stdin-filepath-not-used-for-search" + (f" after={','.join(via)}" if via else ""),
+                          f"load_configuration_for_stdin has a path on which --stdin-filepath is given but load_configuration(filepath) is "
+                          f"not called" + (f" (after asking {list(via)})" if via else "") + ": the search starts in the working "
+                          f"directory instead of the given path's directory (an unsaved buffer, a path that does not exist yet), so "
+                          f"a nearer stylua.toml is ignored and the EditorConfig fall-back is asked about `*.lua`", f.loc(), cfg)
+        rep.floor("paths with stdin_filepath = Some", n, 1, cfg)
+    return rep
